@@ -494,6 +494,12 @@ func (t *tr) frameObligations(heaps map[string]string, R string, label string, p
 			}
 			t.oblige("frame", fmt.Sprintf("frame/%s@%s", h, label), R, goal, pos)
 		} else if strings.HasPrefix(h, "G_") {
+			if t.eng.specs.Scratch[h[2:]] {
+				// working storage of a single proof (e.g. an accumulator that is copied into a fresh object at the end): only
+				// the function that declares the ghost `scratch` and writes it mentions it; nobody's contract relies on it
+				// across a call, so its changes are not part of any frame
+				continue
+			}
 			fr := t.fresh("frame_gref", "Int")
 			goal := t.ghostFrameGoal(h, cur, by[h], fr)
 			if goal == "" {
